@@ -140,8 +140,40 @@ class Relabel(flow.Operator):
         return left.use(label=left.label.extend(tail=worker))
 
 
+class Prewired(flow.Operator):
+    """Two mappers in a row written by hand as ONE operator: it wires ``first -> second`` itself in both modes and hands
+    the chains over by their *head* (``Trunk.extend`` / ``Segment.extend`` accept a node or a segment and trace the tail of
+    what is wired behind it).  ``flavour``: both modes as nodes, both as segments, or apply as node and train as segment.
+    Semantics = ``mapper(first) >> mapper(second)``."""
+
+    def __init__(self, first: 'flow.Builder', second: 'flow.Builder', flavour: str):
+        self._first = first
+        self._second = second
+        self._flavour = flavour
+
+    def compose(self, scope: 'flow.Composable') -> 'flow.Trunk':
+        left = scope.expand()
+        apply1 = flow.Worker(self._first, 1, 1)
+        train1 = apply1.fork()
+        if apply1.stateful:
+            apply1.fork().train(left.train.publisher, left.label.publisher)
+        apply2 = flow.Worker(self._second, 1, 1)
+        train2 = apply2.fork()
+        apply2[0].subscribe(apply1[0])
+        train2[0].subscribe(train1[0])
+        if apply2.stateful:
+            apply2.fork().train(train1[0], left.label.publisher)
+        apply, train = apply1, train1
+        if self._flavour == 'segments':
+            apply, train = flow.Segment(apply1), flow.Segment(train1)
+        elif self._flavour == 'mixed':
+            train = flow.Segment(train1)
+        return left.extend(apply, train)
+
+
 def symcls():
-    return {'SymCV': SymCV, 'SymFolds': SymFolds, 'SymDumper': SymDumper, 'Twice': Twice, 'Handmade': Handmade, 'Relabel': Relabel}
+    return {'SymCV': SymCV, 'SymFolds': SymFolds, 'SymDumper': SymDumper, 'Twice': Twice, 'Handmade': Handmade, 'Relabel': Relabel,
+            'Prewired': Prewired}
 
 
 # ------------------------------------------------------------------------------------------------ generation
@@ -184,6 +216,9 @@ class Gen:
         pool = [o for o in self.ops if scoped_ok or o not in ('fullstack', 'twice')]
         op = self.rng.choice(pool + ['wrap'] * 3)
         if op == 'wrap':
+            if self.rng.random() < 0.12:  # two mappers pre-wired by one hand-written operator (exprgen.Prewired)
+                return {'op': 'chain', 'left': dict(self.wrap('mapper'), handmade=False), 'right': dict(self.wrap('mapper'), handmade=False),
+                        'prewired': self.rng.choice(['nodes', 'segments', 'mixed'])}
             return self.wrap()
         if op == 'mapreduce':
             return {'op': 'mapreduce', 'id': self._id(), 'mappers': [self.actor() for _ in range(self.rng.randint(1, 3))]}
@@ -225,7 +260,7 @@ def operators(expr: dict) -> typing.Iterator[dict]:
 
 def signature(expr: dict) -> str:
     if expr['op'] == 'chain':
-        return f'({signature(expr["left"])}>>{signature(expr["right"])})'
+        return f'({signature(expr["left"])}>>{"~" + expr["prewired"] + "~" if expr.get("prewired") else ""}{signature(expr["right"])})'
     if expr['op'] == 'wrap':
         flags = ''.join(('S' if expr[k]['stateful'] else 's') if expr[k] else '-' for k in ('apply', 'train', 'label'))
         return f'W[{expr["style"]}{"!" if expr.get("handmade") or expr.get("relabel") else ""}:{flags}]'
@@ -243,6 +278,10 @@ def build(expr: dict, log: typing.Optional[str] = None):
 
     klass = symcls()
     if expr['op'] == 'chain':
+        if expr.get('prewired'):
+            first, second = expr['left']['apply'], expr['right']['apply']
+            return klass['Prewired'](symbolic.builder(first['name'], first['stateful'], 1, log),
+                                     symbolic.builder(second['name'], second['stateful'], 1, log), expr['prewired'])
         return build(expr['left'], log) >> build(expr['right'], log)
     if expr['op'] == 'wrap':
         def actor(spec):
